@@ -237,7 +237,7 @@ def _minimise_text(pool: Pool, text: str, sig: str, budget_s: float) -> str:
 
 
 CONFIGS = [{"hashseed": 0, "block": []}, {"hashseed": 1, "block": ["scoreboard_cy", "time_utils_cy", "working_hours_cy"]}]
-COUNTS = {"quick": {"count": 2400, "wall": 110}, "thorough": {"count": 200000, "wall": 1500}}
+COUNTS = {"quick": {"count": 3400, "wall": 110}, "thorough": {"count": 200000, "wall": 1500}}
 ASSUMPTIONS = [
     "the step clock counts Python function entries and loop back-edges; a loop inside C code is caught only by the wall watchdog",
     "size measure M = len(text) + H*(R+T+1)*S + T^2 (H slots of the horizon after automatic extension); budget constants are committed in calib/step_budget.json at 10x the worst fault-free ratio and never refitted at check time",
